@@ -223,6 +223,29 @@ def _chunk(seed, lo, hi, extra):
                         fail("C06/result-depends-on-earlier-diffs-in-process", left_ns=ser(a), right_ns=ser(b))
                 except Exception as e:  # noqa
                     pass
+                # (d') one XMLFormatter across namespaced pairs: an earlier script with InsertNamespace (the right root binds
+                # a prefix the left one lacks), then a pair that uses that URI only below the root
+                rr = core.rng_for(seed, "U12nsfmt", idx)
+                pre, uri = rr.choice(["p", "q", "nsx"]), rr.choice(["urn:verif:one", "urn:verif:two"])
+                hl = "<r><a>one</a></r>"
+                hr = '<r xmlns:%s="%s"><a>one</a><%s:b>two</%s:b></r>' % (pre, uri, pre, pre)
+                inner = rr.choice(['<x xmlns="%s">same</x>' % uri, '<z:x xmlns:z="%s">same</z:x>' % uri,
+                                   '<w><x xmlns="%s">same<k/></x></w>' % uri])
+                ol = "<r>%s<y>text one</y></r>" % inner
+                orr = "<r>%s<y>text two</y><n/></r>" % inner
+                for kw in ({}, {"pretty_print": False}, {"use_replace": True}):
+                    try:
+                        f = formatting.XMLFormatter(**kw)
+                        main.diff_texts(hl, hr, formatter=f)
+                        got = main.diff_texts(ol, orr, formatter=f)
+                        want = main.diff_texts(ol, orr, formatter=formatting.XMLFormatter(**kw))
+                        again = main.diff_texts(ol, orr, formatter=f)
+                    except Exception as e:  # noqa
+                        fail(f"C06/formatter-with-namespace-history-raises/{real.exc_sig(e)}", history=[hl, hr], observed=[ol, orr])
+                        continue
+                    if got != want or again != want:
+                        fail("C06/formatter-with-history-differs/XMLFormatter/namespace-inserted-earlier",
+                             history=[hl, hr], observed=[ol, orr], got=got[:600], want=want[:600])
         except Exception as e:  # noqa
             fail(f"C06/raises/{real.exc_sig(e)}")
     return st
